@@ -113,7 +113,7 @@ Print Assumptions c01_complete_password.
 (* ... whatever cookie and Basic header the request carries beside the certificate *)
 Theorem c01_complete_cert : forall expand st now lim q c,
   servable expand st q (s_name st (c_cn c)) ->
-  q_tls q = Some c ->
+  q_tls q = Some c -> names_somebody st c ->
   (keymaster_cert c /\ qualifies (s_cfg st) bKMX509) \/ (ip_cert_ok c /\ qualifies (s_cfg st) bIPCert) ->
   q_target q = s_name st (c_cn c) ->
   exists d, certgen expand st now lim q = Issued (c_cn c) d.
@@ -124,17 +124,28 @@ Print Assumptions c01_complete_cert.
    only if the CERTIFICATE's own identity and level qualify - a session cookie next to it adds
    nothing, be it valid, expired, not yet valid or foreign ... *)
 Theorem c01_certificate_decides : forall expand st now lim q c u d,
-  q_tls q = Some c -> certgen expand st now lim q = Issued u d ->
-  exists level, cert_proves q u level /\ qualifies (s_cfg st) level.
+  q_tls q = Some c -> names_somebody st c -> certgen expand st now lim q = Issued u d ->
+  exists level, cert_proves st q u level /\ qualifies (s_cfg st) level.
 Proof. exact certificate_decides. Qed.
 Print Assumptions c01_certificate_decides.
 
 (* ... and the answer does not depend on them at all *)
 Theorem c01_credentials_beside_certificate_ignored : forall expand st now lim lim' q c ck b ck' b',
-  q_tls q = Some c ->
+  q_tls q = Some c -> names_somebody st c ->
   certgen expand st now lim (with_creds q ck b) = certgen expand st now lim' (with_creds q ck' b').
 Proof. exact credentials_beside_certificate_ignored. Qed.
 Print Assumptions c01_credentials_beside_certificate_ignored.
+
+(* A client certificate whose common name is the EMPTY string names nobody (`tlsAuthUser != ""`,
+   `authData.Username != ""` in checkAuth) and is no credential: whoever signed it, the request is
+   refused unless the address test accepts the certificate, and then it is answered exactly as the
+   same request without a certificate. *)
+Theorem c01_nameless_certificate_no_identity : forall expand st now lim q c,
+  q_tls q = Some c -> s_name st (c_cn c) = [] ->
+  (ip_restricted c = IpOk /\ certgen expand st now lim q = certgen expand st now lim (without_tls q)) \/
+  (ip_restricted c <> IpOk /\ exists code, certgen expand st now lim q = Refused code /\ 400 <= code).
+Proof. exact nameless_certificate_no_identity. Qed.
+Print Assumptions c01_nameless_certificate_no_identity.
 
 (* The session cookie's issuer and audience are byte strings, compared for EQUALITY with the server's
    issuer string (idpGetIssuer: "https://" + HostIdentity + listen address unless ":443").  Without a
@@ -227,14 +238,17 @@ Qed.
    an expired U2F cookie and a good password of the same user; without a certificate the valid cookie is
    served; under [password] the certificate is served whatever comes with it.  Issuer near misses:
    with the listen address :8443 the cookie of "https://keymaster.example:8443" is served, the one of
-   "https://keymaster.example" (proper prefix) and of "...:84430" are refused. *)
+   "https://keymaster.example" (proper prefix) and of "...:84430" are refused.  A main-CA certificate
+   with an empty common name: 403 with or without a valid cookie; an address-restricted one accepted by
+   the address test: the cookie decides. *)
 Definition xclass (cfg : N) (i : nat) : N := run_xcase (cfg, nth i xshapes default_shape).
 Example c01_combined_nonvacuous :
   map (xclass 36) [115; 118; 127; 144; 0; 3]%nat = [0; 0; 0; 0; 0; 6] /\
   map (xclass 1) [115; 118; 127; 144]%nat = [6; 6; 6; 6] /\
-  n_xshapes = 1112 /\ map (xclass 36) [1016; 1102; 1027; 1106]%nat = [6; 0; 0; 6] /\
+  n_xshapes = 1457 /\ map (xclass 36) [1361; 1447; 1372; 1451]%nat = [6; 0; 0; 6] /\
+  map (xclass 36) [920; 923; 1035; 1038; 1153]%nat = [0; 0; 0; 6; 6] /\
   length (near_misses 1) = 19%nat /\ ~ In (case_issuer 1) (near_misses 1) /\ ~ In (case_issuer 0) (near_misses 0).
 Proof.
-  split; [vm_compute; reflexivity|]. split; [vm_compute; reflexivity|]. split; [reflexivity|]. split; [vm_compute; reflexivity|]. split; [reflexivity|].
+  split; [vm_compute; reflexivity|]. split; [vm_compute; reflexivity|]. split; [reflexivity|]. split; [vm_compute; reflexivity|]. split; [vm_compute; reflexivity|]. split; [reflexivity|].
   split; intro H; vm_compute in H; repeat (destruct H as [H|H]; [discriminate|]); exact H.
 Qed.
